@@ -75,6 +75,15 @@ class OwnEval:
             if cn in IMMUTABLE_CALLS:
                 return Own(FRESH, f"{cn}(...) immutable result")
             if isinstance(e.func, ast.Attribute) and la in DEEP_COPY_METHODS:
+                # TensorDict.clone(recurse=False) / clone(False) copies the container only: the tensors stay shared
+                rec = None
+                for k in e.keywords:
+                    if k.arg == "recurse":
+                        rec = k.value
+                if rec is None and la == "clone" and e.args and isinstance(e.args[0], ast.Constant) and e.args[0].value is False:
+                    rec = e.args[0]
+                if rec is not None and not (isinstance(rec, ast.Constant) and rec.value is True):
+                    return Own(SHALLOW, f".{la}(recurse=False) copies the container only, the tensors inside stay shared")
                 return Own(FRESH, f".{la}() returns an independent copy")
             if cn in SHALLOW_CALLS or (isinstance(e.func, ast.Attribute) and la in SHALLOW_METHODS):
                 inner = Own(FRESH, "empty")
